@@ -124,20 +124,26 @@ def Writer.run (cfg : WCfg) (st : WState) : List WOp → WState
 
 /-! ### reader -/
 
+/-- metadata values are `bytes`; anything else is dropped (`read_user_metadata` warns and skips) -/
+def metaBytesOnly (kv : Bytes × Value) : Option (Bytes × Bytes) :=
+  match kv.2 with
+  | .bytes b => some (kv.1, b)
+  | _ => none
+
 /-- `Block::read_header`: magic, metadata map (`map<bytes>` read with the datum decoder), marker.
 Returns the raw metadata entries, the marker and the rest. -/
-def readHeader (cfg : Cfg) (bs : Bytes) : Except Err (List (Bytes × Bytes) × Bytes × Bytes) :=
+def readHeader (cfg : Cfg) (fuel : Nat) (bs : Bytes) : Except Err (List (Bytes × Bytes) × Bytes × Bytes) :=
   match takeExact 4 bs with
   | .error e => .error e
   | .ok (m, r) =>
     if m ≠ magic then .error .other
-    else match decode cfg [] 3 (.map .bytes) r with
+    else match decode cfg [] fuel (.map .bytes) r with
       | .error e => .error e
       | .ok (.map es, r1) =>
         match takeExact 16 r1 with
         | .error e => .error e
         | .ok (marker, r2) =>
-          .ok (es.filterMap (fun kv => match kv.2 with | .bytes b => some (kv.1, b) | _ => none), marker, r2)
+          .ok (es.filterMap metaBytesOnly, marker, r2)
       | .ok _ => .error .other
 
 /-- how an iteration over the file ended -/
@@ -194,7 +200,7 @@ def readBlocks (cfg : Cfg) (codec : Codec) (f : Reader Value) (marker : Bytes) :
 /-- the whole file: header, then all blocks. -/
 def readFile (cfg : Cfg) (codec : Codec) (env : Names) (fuel : Nat) (schema : Schema) (bs : Bytes) :
     Except Err (List (Bytes × Bytes) × Bytes × List Value × ReadEnd) :=
-  match readHeader cfg bs with
+  match readHeader cfg fuel bs with
   | .error e => .error e
   | .ok (md, marker, rest) =>
     let (vs, fin) := readBlocks cfg codec (decode cfg env fuel schema) marker (rest.length + 1) rest
